@@ -425,3 +425,190 @@ func c01FindTwins(p *Prog, pkgPath string, keep func(fd *ast.FuncDecl, info *typ
 	}
 	return out
 }
+
+// ---------------------------------------------------------- missing twins --
+
+// c01MissingTwin: one function that handles both address families of a struct
+// (it uses both members of at least one IPv4/IPv6 field pair of the struct) but
+// only one member of another pair of the same struct.
+type c01MissingTwin struct {
+	Fn      string
+	Struct  string
+	Have    *types.Var // the member that is used
+	Missing *types.Var // its twin, which the function never mentions
+	Witness [2]*types.Var
+	Pos     token.Pos
+}
+
+type c01TwinUse struct {
+	Fn     string
+	Struct string
+	Pairs  int // field pairs of the struct with both members used
+	Pos    token.Pos
+}
+
+// c01FieldTwins finds, per function of pkgPath, the structs it treats
+// dual-stack and the twin pairs of those structs it uses one-sidedly.
+func c01FieldTwins(p *Prog, pkgPath string) (uses []c01TwinUse, missing []c01MissingTwin) {
+	pk := p.Pkg(pkgPath)
+	if pk == nil {
+		return nil, nil
+	}
+	info := pk.TypesInfo
+	// owner struct of a field, twin pairs per struct (cached)
+	type pair struct{ a, b *types.Var }
+	ownerCache := map[*types.Package]map[*types.Var]*types.TypeName{}
+	owner := func(v *types.Var) *types.TypeName {
+		if v.Pkg() == nil {
+			return nil
+		}
+		m := ownerCache[v.Pkg()]
+		if m == nil {
+			m = map[*types.Var]*types.TypeName{}
+			sc := v.Pkg().Scope()
+			for _, n := range sc.Names() {
+				tn, ok := sc.Lookup(n).(*types.TypeName)
+				if !ok {
+					continue
+				}
+				if st, ok := tn.Type().Underlying().(*types.Struct); ok {
+					for i := 0; i < st.NumFields(); i++ {
+						if _, dup := m[st.Field(i)]; !dup {
+							m[st.Field(i)] = tn
+						}
+					}
+				}
+			}
+			ownerCache[v.Pkg()] = m
+		}
+		return m[v]
+	}
+	qn := func(tn *types.TypeName) string {
+		if tn.Pkg() != nil {
+			return tn.Pkg().Name() + "." + tn.Name()
+		}
+		return tn.Name()
+	}
+	pairCache := map[*types.TypeName][]pair{}
+	pairsOf := func(tn *types.TypeName) []pair {
+		if ps, ok := pairCache[tn]; ok {
+			return ps
+		}
+		st := tn.Type().Underlying().(*types.Struct)
+		byName := map[string]*types.Var{}
+		for i := 0; i < st.NumFields(); i++ {
+			byName[st.Field(i).Name()] = st.Field(i)
+		}
+		var ps []pair
+		for i := 0; i < st.NumFields(); i++ {
+			f := st.Field(i)
+			for _, tw := range c01TwinNames(f.Name()) {
+				if g := byName[tw]; g != nil && g != f && c01TwinTypes(f.Type(), g.Type()) {
+					ps = append(ps, pair{f, g})
+					break
+				}
+			}
+		}
+		pairCache[tn] = ps
+		return ps
+	}
+	p.eachFuncDecl(pkgPath, func(_ *packages.Package, fd *ast.FuncDecl) {
+		if fd.Body == nil {
+			return
+		}
+		fname := fd.Name.Name
+		if fd.Recv != nil && len(fd.Recv.List) == 1 {
+			rt := fd.Recv.List[0].Type
+			if st, ok := rt.(*ast.StarExpr); ok {
+				rt = st.X
+			}
+			if id, ok := rt.(*ast.Ident); ok {
+				fname = id.Name + "." + fname
+			}
+		}
+		used := map[*types.Var]token.Pos{}
+		ast.Inspect(fd.Body, func(n ast.Node) bool {
+			id, ok := n.(*ast.Ident)
+			if !ok {
+				return true
+			}
+			if v, ok := info.Uses[id].(*types.Var); ok && v.IsField() {
+				if _, dup := used[v]; !dup {
+					used[v] = id.Pos()
+				}
+			}
+			return true
+		})
+		structs := map[*types.TypeName]bool{}
+		for v := range used {
+			if tn := owner(v); tn != nil {
+				structs[tn] = true
+			}
+		}
+		var tns []*types.TypeName
+		for tn := range structs {
+			tns = append(tns, tn)
+		}
+		sort.Slice(tns, func(i, j int) bool { return tns[i].Name() < tns[j].Name() })
+		for _, tn := range tns {
+			var both []pair
+			var one []c01MissingTwin
+			for _, pr := range pairsOf(tn) {
+				_, ua := used[pr.a]
+				_, ub := used[pr.b]
+				switch {
+				case ua && ub:
+					both = append(both, pr)
+				case ua:
+					one = append(one, c01MissingTwin{Fn: fname, Struct: qn(tn), Have: pr.a, Missing: pr.b, Pos: used[pr.a]})
+				case ub:
+					one = append(one, c01MissingTwin{Fn: fname, Struct: qn(tn), Have: pr.b, Missing: pr.a, Pos: used[pr.b]})
+				}
+			}
+			if len(both) == 0 {
+				continue
+			}
+			uses = append(uses, c01TwinUse{fname, qn(tn), len(both), used[both[0].a]})
+			for _, m := range one {
+				m.Witness = [2]*types.Var{both[0].a, both[0].b}
+				missing = append(missing, m)
+			}
+		}
+	})
+	return uses, missing
+}
+
+// c01TwinTypes: the two fields hold the same kind of thing for the two address
+// families: identical types, or named types that are themselves twins
+// (ip.V4Addr / ip.V6Addr), possibly behind the same pointer/slice/map shape.
+func c01TwinTypes(a, b types.Type) bool {
+	a, b = types.Unalias(a), types.Unalias(b)
+	if types.Identical(a, b) {
+		return true
+	}
+	switch x := a.(type) {
+	case *types.Pointer:
+		if y, ok := b.(*types.Pointer); ok {
+			return c01TwinTypes(x.Elem(), y.Elem())
+		}
+	case *types.Slice:
+		if y, ok := b.(*types.Slice); ok {
+			return c01TwinTypes(x.Elem(), y.Elem())
+		}
+	case *types.Map:
+		if y, ok := b.(*types.Map); ok {
+			return types.Identical(x.Key(), y.Key()) && c01TwinTypes(x.Elem(), y.Elem())
+		}
+	case *types.Named:
+		y, ok := b.(*types.Named)
+		if !ok || x.Obj().Pkg() != y.Obj().Pkg() {
+			return false
+		}
+		for _, tw := range c01TwinNames(x.Obj().Name()) {
+			if tw == y.Obj().Name() {
+				return true
+			}
+		}
+	}
+	return false
+}
